@@ -5471,6 +5471,9 @@ class UDFExtendedFileEntry:
 
         self.uid = 4294967295  # Really -1, which means unset
         self.gid = 4294967295  # Really -1, which means unset
+        self.record_format = 0
+        self.record_display_attrs = 0
+        self.record_len = 0
         if file_type == 'dir':
             self.permissions = 5285
             self.file_link_count = 0
@@ -5504,17 +5507,28 @@ class UDFExtendedFileEntry:
                 self.alloc_descs.append(short_ad)
                 len_left -= alloc_len
 
+        # There are no streams, so the object size is just the size of the data.
+        self.obj_size = self.info_len
+
         self.access_time = UDFTimestamp()
         self.access_time.new(time.time())
 
         self.mod_time = UDFTimestamp()
         self.mod_time.new(time.time())
 
+        self.creation_time = UDFTimestamp()
+        self.creation_time.new(time.time())
+
         self.attr_time = UDFTimestamp()
         self.attr_time.new(time.time())
 
+        self.checkpoint = 1
+
         self.extended_attr_icb = UDFLongAD()
         self.extended_attr_icb.new(0, 0)
+
+        self.stream_icb = UDFLongAD()
+        self.stream_icb.new(0, 0)
 
         self.impl_ident = UDFEntityID()
         self.impl_ident.new(0, b'*pycdlib')
